@@ -322,6 +322,8 @@ func (le *luaEncoder) encodeTopLevel(writer io.Writer, node *CandidateNode) erro
 }
 
 func (le *luaEncoder) Encode(writer io.Writer, node *CandidateNode) error {
+	// a failed Encode returns from inside nested containers: start every document at the left margin
+	le.indent = 0
 
 	if le.globals {
 		if node.Kind != MappingNode {
